@@ -115,6 +115,23 @@ def check_two_objects(args):
         return "%s: two interleaved objects influence each other: %s vs alone %s" % (cls, (ra, rb), (alone_a, alone_b))
     return None
 
+def _shrink_ops(args, key, check, what):
+    """greedy removal of operations while the check still fails (minimal replay)"""
+    ops = list(args[key])
+    i = 0
+    while i < len(ops):
+        trial = dict(args)
+        trial[key] = ops[:i] + ops[i + 1:]
+        w = check(trial)
+        if w:
+            ops = trial[key]
+            what = w
+        else:
+            i += 1
+    out = dict(args)
+    out[key] = ops
+    return out, what
+
 def oracles_C13(ctx, hints):
     fails = []
     n = 0
@@ -131,6 +148,7 @@ def oracles_C13(ctx, hints):
             n += 1
             w = check_history_independence(args)
             if w:
+                args, w = _shrink_ops(args, "ops", check_history_independence, w)
                 fails.append(Failure("history_independence", args, w, {"class": cg.cls, "check": "history"}))
                 bad = True
                 break
@@ -167,6 +185,16 @@ def _twins(ctx, cg):
                 h = dict(f)
                 h[k] = alt
                 out.append((opts, f, h, k))
+                break
+    for grp in getattr(cg, "groups", ()):
+        for _ in range(6):
+            g = cg.valid(rng)
+            if any(g.get(k) != f.get(k) for k in grp):
+                h = dict(f)
+                for k in grp:
+                    h[k] = g[k]
+                out.append((opts, f, h, "+".join(grp)))
+                out.append((opts, h, f, "+".join(grp)))      # equality need not be symmetric: try both orders
                 break
     return out
 
@@ -253,13 +281,15 @@ def oracles_C14(ctx, hints):
             continue
         done = set()
         for _ in range(ctx.scale(8, 300) * (4 if getattr(ctx, "search_mode", False) else 1)):
-            for opts, fa, fb, k in _twins(ctx, cg):
+            twins = _twins(ctx, cg)
+            for opts, fa, fb, k in twins:
                 args = {"cls": cg.cls, "opts": list(opts), "a": fa, "b": fb, "field": k}
                 n += 1
                 w = check_eq(args)
                 if w and ("eq", k) not in done:
                     done.add(("eq", k))
                     fails.append(Failure("eq", args, w, {"class": cg.cls, "check": "eq_sound", "field": k}))
+            opts, fa = twins[0][0], twins[0][1]          # the valid object itself (twins may mix fields)
             args = {"cls": cg.cls, "opts": list(opts), "a": fa}
             n += 2
             if cg.can_pack and cg.can_unpack and "dec" not in done:
